@@ -4,21 +4,21 @@ CONSTANTS
   MaxVer = 2
   MaxReorgs = 4
   MaxCrashes = 2
-  Gates = {}
+  Gates = {"acct"}
   Interleave = FALSE
   Cfgs <- CfgsWide
   OraclesFor <- SeedOracles
-  MaxAccts = 0
+  MaxAccts = 4
   AnswersFor <- AllAnswers
   Deviation = {}
   ScenLen = 46
-  Seeds = {1, 2, 3, 4, 5, 6, 7, 8, 9, 10, 11, 12, 13, 14, 15, 16, 17, 18, 19, 20, 21, 22, 23, 24, 25, 26, 27, 28, 29, 30}
+  Seeds = {1, 2, 3, 4, 5, 6, 7, 8, 9, 10, 11, 12}
   StartSlots = {0, 1, 2, 3, 4, 5, 6, 7, 8, 9, 10, 11, 12, 13}
   MaxHeads = 2
-  Stimuli = {"Start", "Crash", "Advance", "EpochTick", "Reorg", "HeadEvent", "Fire", "Hold", "Unhold", "Release"}
-  MaxHolds = 99
+  Stimuli = {"Start", "Crash", "Advance", "EpochTick", "Reorg", "HeadEvent", "Fire", "Accounts", "Hold", "Unhold", "Release"}
+  MaxHolds = 2
   Focus = FALSE
-  Disjoint = FALSE
+  Disjoint = TRUE
   Tight = FALSE
 INVARIANTS Emit
 CHECK_DEADLOCK FALSE
